@@ -225,10 +225,14 @@ func H_C16_writers() {
 	tbl.rows.ReplaceOrInsert(two("s"))
 	target := []string{"s", "t", "a50"}[vChoice("writer.target", 0, 2)]
 	val := vNondetBytes("writer.val", 1)
+	deleteRow := vChoice("writer.kind", 0, 1) == 1
 	acked := false
 	vGo(func() {
-		_, err := s.MutateRow(vCtx(), &btpb.MutateRowRequest{TableName: vTable, RowKey: []byte(target), Mutations: []*btpb.Mutation{
-			{Mutation: &btpb.Mutation_SetCell_{SetCell: &btpb.Mutation_SetCell{FamilyName: "f", ColumnQualifier: []byte("w"), TimestampMicros: 3000, Value: val}}}}})
+		mut := &btpb.Mutation{Mutation: &btpb.Mutation_SetCell_{SetCell: &btpb.Mutation_SetCell{FamilyName: "f", ColumnQualifier: []byte("w"), TimestampMicros: 3000, Value: val}}}
+		if deleteRow {
+			mut = &btpb.Mutation{Mutation: &btpb.Mutation_DeleteFromRow_{DeleteFromRow: &btpb.Mutation_DeleteFromRow{}}}
+		}
+		_, err := s.MutateRow(vCtx(), &btpb.MutateRowRequest{TableName: vTable, RowKey: []byte(target), Mutations: []*btpb.Mutation{mut}})
 		acked = err == nil
 	})
 	vGo(func() { tbl.gc(5000, s.done, true) })
@@ -239,6 +243,11 @@ func H_C16_writers() {
 	rerr := s.ReadRows(&btpb.ReadRowsRequest{TableName: vTable, Rows: &btpb.RowSet{RowKeys: [][]byte{[]byte(target)}}}, st)
 	rows, ok := vDecode(st.msgs)
 	vAssert(rerr == nil && ok, "read-ok")
+	if deleteRow {
+		vAssert(len(rows) == 0, "acknowledged-row-delete-is-not-reverted-by-the-pass")
+		vReach("c16-writers")
+		return
+	}
 	found := false
 	if len(rows) == 1 {
 		for _, c := range rows[0].cells {
